@@ -140,7 +140,7 @@ func (c *Ctx) verifyBody() {
 			}
 		}
 	}
-	env := c.specEnvFor(st, fr)
+	env := c.specEnvFor(st, fr) // binds the contract's `let` names in the entry state
 	for _, rq := range sp.Requires {
 		st.assume(c.evalBool(env, rq.Expr))
 	}
